@@ -58,6 +58,15 @@ SHAPES = {
     "recursive_struct": ("#[typeshare]\npub struct A { pub left: Option<Box<A>>, pub right: Option<Box<A>>, pub all: Vec<A> }\n", False),
     "mutual_recursion": ("#[typeshare]\npub struct A { pub b: Option<Box<B>>, pub bs: Vec<B> }\n#[typeshare]\npub struct B { pub a: Option<Box<A>>, pub as_: Vec<A> }\n", False),
     "recursive_enum": ('#[typeshare]\n#[serde(tag = "t", content = "c")]\npub enum A { L(Box<A>), R(Box<A>), S { a: Vec<A> }, N }\n', False),
+    "map_key_vec_tuple_variant": ('#[typeshare]\n#[serde(tag = "t", content = "c")]\npub enum A { ByDigest(HashMap<Vec<u8>, String>), U }\n', False),
+    "map_key_map_tuple_variant": ('#[typeshare]\n#[serde(tag = "t", content = "c")]\npub enum A { ByMap(HashMap<HashMap<String, u32>, bool>), U }\n', False),
+    "map_key_slice_tuple_variant": ('#[typeshare]\n#[serde(tag = "t", content = "c")]\npub enum A { BySlice(HashMap<&\'static [u8], u32>), Nested(Vec<Option<HashMap<Vec<String>, u8>>>) }\n', False),
+    "map_key_vec_struct_variant": ('#[typeshare]\n#[serde(tag = "t", content = "c")]\npub enum A { S { m: HashMap<Vec<String>, u32> }, U }\n', False),
+    "map_key_containers_struct": ("#[typeshare]\npub struct A { pub a: HashMap<Vec<u8>, String>, pub b: HashMap<Option<String>, u32>, pub c: Vec<HashMap<[u8; 2], bool>> }\n", False),
+    "map_key_containers_alias": ("#[typeshare]\npub type Al = HashMap<Vec<u8>, Vec<u8>>;\n", False),
+    "map_key_odd_scalars": ('#[typeshare]\npub struct A { pub a: HashMap<bool, u32>, pub b: HashMap<(), u32>, pub c: HashMap<f64, u32>, pub d: HashMap<char, u32> }\n#[typeshare]\n#[serde(tag = "t", content = "c")]\npub enum E { V(HashMap<bool, ()>), W(HashMap<char, f32>) }\n', False),
+    "map_key_generic_variant": ('#[typeshare]\n#[serde(tag = "t", content = "c")]\npub enum A<T> { V(HashMap<T, String>), W { m: HashMap<T, Vec<T>> } }\n#[typeshare]\npub struct B<K> { pub m: HashMap<K, u32> }\n', False),
+    "nested_options_variant": ('#[typeshare]\n#[serde(tag = "t", content = "c")]\npub enum A { V(Option<Option<Vec<Option<u8>>>>), W(Vec<Vec<Vec<()>>>), X(Box<Option<Box<A>>>) }\n', False),
     "alias_self": ("#[typeshare]\npub type A = A;\n", False),
     "alias_cycle_2": ("#[typeshare]\npub type Metres = Distance;\n#[typeshare]\npub type Distance = Metres;\n", False),
     "alias_cycle_3_with_user": ("#[typeshare]\npub type Aa = Bb;\n#[typeshare]\npub type Bb = Cc;\n#[typeshare]\npub type Cc = Aa;\n#[typeshare]\npub struct Uu { pub f: Aa, pub g: Vec<Bb> }\n", False),
